@@ -78,7 +78,7 @@ def run_point(pt):
     backend, k, mode, caught, auto = pt[:5]
     d = tempfile.mkdtemp(prefix="pv-c18-")
     try:
-        cfg = {"backend": backend, "k": k, "mode": mode, "caught": caught, "autoprove": auto, "prehook": len(pt) > 5 and pt[5], "operation": pt[6] if len(pt) > 6 else None}
+        cfg = {"backend": backend, "k": k, "mode": mode, "caught": caught, "autoprove": auto, "prehook": len(pt) > 5 and pt[5], "operation": pt[6] if len(pt) > 6 else None, "nstmts": pt[7] if len(pt) > 7 else None, "shape": pt[8] if len(pt) > 8 else 0}
         r = subprocess.run([common.PY, SCRIPT, json.dumps(cfg)], cwd=d, env=child_env(backend), capture_output=True,
                            text=True, start_new_session=True, timeout=120)
         status = r.returncode
@@ -109,7 +109,7 @@ def judge(res):
         out.append(({"klass": "unexpected-exit-status", "mode": mode}, "exit status %s, expected %s" % (res["status"], es)))
         return out
     success = (es == 0)
-    nstmts = min(k, 3)
+    nstmts = min(k, res["pt"][7] if len(res["pt"]) > 7 and res["pt"][7] else 3)
     base = {"mode": mode, "caught": caught, "autoprove": auto}
     if len(res["pt"]) > 5 and res["pt"][5]:
         base["prehook"] = True
@@ -146,6 +146,12 @@ def points(thorough, seed):
             if not thorough and backend in ("zkifbellman", "nobackend") and caught != "none":
                 continue        # quick: these two backends share all code with zkinterface / have no artefacts
             pts.append((backend, k, mode, caught, auto))
+    # long scripts: 600 statements (artefacts beyond 64 KiB); stopped at the end, in the middle, by an error in the middle
+    for backend in ("snarkjs", "zkinterface", "qaptools"):
+        for k, mode in ((600, "fall"), (600, "exit(0)"), (450, "exit()"), (450, "ValueError"), (599, "exit(1)")):
+            pts.append((backend, k, mode, "none", True, False, None, 600))
+        for shape in (1, 2, 3, 4):
+            pts.append((backend, 600, "fall", "none", True, False, None, 600, shape))
     # automatic proving off and a separate step requested (runtime.operation set)
     for backend in BACKENDS if thorough else ("snarkjs", "zkinterface", "nobackend"):
         for k, mode, opn in itertools.product((0, 3), ("fall", "exit(0)", "exit(1)", "ValueError"), ("prove", "keygen", "verify")):
@@ -164,7 +170,7 @@ def run(ctx):
     nprove = 0
     for res in results:
         ctx.add("executions")
-        ctx.add("transitions", 1 + min(res["pt"][1], 3))
+        ctx.add("transitions", 1 + min(res["pt"][1], (res["pt"][7] if len(res["pt"]) > 7 and res["pt"][7] else 3)))
         if not res.get("timeout"):
             shapes.add((res["pt"][0], res["status"], res["calls"], len(res["present"])))
             nprove += res["calls"]
